@@ -93,7 +93,9 @@ class PropertyCheck:
                 cases.append((t, backend.Settings(scale=self.rng.choice([8, 1, 0.5, 10]), b=self.rng.chance(1, 2),
                                                   s=self.rng.chance(1, 2), d=self.rng.chance(1, 2)),
                               # "reuse": one CellBuffer rendered with other settings first (public API), then with these
-                              "reuse" if self.rng.chance(1, 3) else "settings"))
+                              # "mutate": the buffer is filled cell by cell between renderings (quote- and legend-free input)
+                              ("mutate" if ('"' not in t and "# Legend:" not in t and self.rng.chance(1, 2)) else "reuse")
+                              if self.rng.chance(1, 3) else "settings"))
         dis = []
         for c, r in zip(cases, backend.run_full(cases)):
             self.evaluations += 1
@@ -224,6 +226,14 @@ def run_check(check_cls, argv):
                         suspects.append(t)
                 if suspects and hasattr(chk, "oracle_on_texts"):
                     failures = list(failures) + list(chk.oracle_on_texts(suspects[:80]))
+                # where the regenerated tables differ from the committed reference copy: small drawings around exactly
+                # those characters go to the property's oracle
+                hot = common.changed_table_chars()
+                if hot and hasattr(chk, "oracle_on_texts"):
+                    import gen
+                    around = gen.around(chk.rng, hot[:6], chk.scale(200, 2000))
+                    chk.count("inputs_around_changed_table_entries", len(around))
+                    failures = list(failures) + list(chk.oracle_on_texts(around))
                 # drawings at the ends of the size axes go to the property's own oracle as well
                 if chk.zoo and hasattr(chk, "oracle_on_texts"):
                     import gen
